@@ -232,63 +232,71 @@ Definition by_ordering (m : kwmap) (nuniq range range29 : sum ferr leaf) : sum f
 Definition depth_at (m : kwmap) (i : N) : option N :=
   match kw_get m i with Some (KDepth d) => Some d | _ => None end.
 
-Definition dispatch (m : kwmap) : sum ferr (leaf * N * N)%type :=
-  match kw_get m 0 with
-  | Some (KEnum 1) =>                                  (* MOCVERS = 2.0 *)
-    match kw_get m 1 with
-    | Some (KEnum 1) =>                                (* SPACE *)
-      match depth_at m 8 with
-      | None => Datatypes.inl FMissingKeyword
-      | Some d =>
-        match kw_get m 3 with
-        | None => Datatypes.inl FMissingKeyword                  (* check_coordsys *)
-        | Some _ =>
-          match by_ordering m (Datatypes.inr LSNuniq) (Datatypes.inr LSRange) (Datatypes.inl FUncompatibleKeywordContent) with
-          | Datatypes.inl e => Datatypes.inl e | Datatypes.inr lf => Datatypes.inr (lf, d, 0) end
-        end
-      end
-    | Some (KEnum 0) =>                                (* TIME *)
-      match depth_at m 9 with
-      | None => Datatypes.inl FMissingKeyword
-      | Some d => match by_ordering m (Datatypes.inl FUncompatibleKeywordContent) (Datatypes.inr LTRange) (Datatypes.inl FUncompatibleKeywordContent) with
-                  | Datatypes.inl e => Datatypes.inl e | Datatypes.inr lf => Datatypes.inr (lf, d, 0) end
-      end
-    | Some (KEnum 2) =>                                (* TIME.SPACE *)
-      match depth_at m 9 with
-      | None => Datatypes.inl FMissingKeyword
-      | Some dt =>
-        match depth_at m 8 with
-        | None => Datatypes.inl FMissingKeyword
-        | Some ds => match by_ordering m (Datatypes.inl FUncompatibleKeywordContent) (Datatypes.inr LSTRange) (Datatypes.inl FUncompatibleKeywordContent) with
-                     | Datatypes.inl e => Datatypes.inl e | Datatypes.inr lf => Datatypes.inr (lf, dt, ds) end
-        end
-      end
-    | Some (KEnum 3) =>                                (* FREQUENCY *)
-      match depth_at m 16 with
-      | None => Datatypes.inl FMissingKeyword
-      | Some d => match by_ordering m (Datatypes.inl FUncompatibleKeywordContent) (Datatypes.inr LFRange) (Datatypes.inl FUncompatibleKeywordContent) with
-                  | Datatypes.inl e => Datatypes.inl e | Datatypes.inr lf => Datatypes.inr (lf, d, 0) end
-      end
-    | _ => Datatypes.inl FMissingKeyword                         (* absent, or FREQUENCY.SPACE *)
-    end
-  | _ =>                                               (* v1: S-MOC, or pre-v2 ST-MOC *)
-    match depth_at m 10 with
-    | None => Datatypes.inl FMissingKeyword
-    | Some d =>
-      match kw_get m 2 with
-      | Some (KEnum 0) => Datatypes.inr (LSNuniq, d, 0)
-      | Some (KEnum 1) => Datatypes.inr (LSRange, d, 0)
-      | Some (KEnum 2) =>
-        match depth_at m 9, depth_at m 8 with
-        | None, Some ds => Datatypes.inr (LST29, (2 * d) mod 256, ds)
-        | Some dt, None => Datatypes.inr (LST29, (2 * dt) mod 256, d)
-        | Some dt, Some ds => Datatypes.inr (LST29, (2 * dt) mod 256, ds)
-        | None, None => Datatypes.inl FMissingKeyword
-        end
-      | _ => Datatypes.inl FMissingKeyword
-      end
+Definition with_leaf (r : sum ferr leaf) (d1 d2 : N) : sum ferr (leaf * N * N)%type :=
+  match r with Datatypes.inl e => Datatypes.inl e | Datatypes.inr lf => Datatypes.inr (lf, d1, d2) end.
+
+Definition disp_space (m : kwmap) : sum ferr (leaf * N * N)%type :=
+  match depth_at m 8 with
+  | None => Datatypes.inl FMissingKeyword
+  | Some d =>
+    match kw_get m 3 with
+    | None => Datatypes.inl FMissingKeyword                  (* check_coordsys *)
+    | Some _ => with_leaf (by_ordering m (Datatypes.inr LSNuniq) (Datatypes.inr LSRange) (Datatypes.inl FUncompatibleKeywordContent)) d 0
     end
   end.
+Definition disp_time (m : kwmap) : sum ferr (leaf * N * N)%type :=
+  match depth_at m 9 with
+  | None => Datatypes.inl FMissingKeyword
+  | Some d => with_leaf (by_ordering m (Datatypes.inl FUncompatibleKeywordContent) (Datatypes.inr LTRange) (Datatypes.inl FUncompatibleKeywordContent)) d 0
+  end.
+Definition disp_st (m : kwmap) : sum ferr (leaf * N * N)%type :=
+  match depth_at m 9 with
+  | None => Datatypes.inl FMissingKeyword
+  | Some dt =>
+    match depth_at m 8 with
+    | None => Datatypes.inl FMissingKeyword
+    | Some ds => with_leaf (by_ordering m (Datatypes.inl FUncompatibleKeywordContent) (Datatypes.inr LSTRange) (Datatypes.inl FUncompatibleKeywordContent)) dt ds
+    end
+  end.
+Definition disp_freq (m : kwmap) : sum ferr (leaf * N * N)%type :=
+  match depth_at m 16 with
+  | None => Datatypes.inl FMissingKeyword
+  | Some d => with_leaf (by_ordering m (Datatypes.inl FUncompatibleKeywordContent) (Datatypes.inr LFRange) (Datatypes.inl FUncompatibleKeywordContent)) d 0
+  end.
+
+(** MOCVERS = 2.0 *)
+Definition dispatch_v2 (m : kwmap) : sum ferr (leaf * N * N)%type :=
+  match kw_get m 1 with
+  | Some (KEnum 1) => disp_space m
+  | Some (KEnum 0) => disp_time m
+  | Some (KEnum 2) => disp_st m
+  | Some (KEnum 3) => disp_freq m
+  | _ => Datatypes.inl FMissingKeyword                         (* absent, or FREQUENCY.SPACE *)
+  end.
+
+(** v1: S-MOC, or pre-v2 ST-MOC *)
+Definition st29_depths (m : kwmap) (d : N) : sum ferr (leaf * N * N)%type :=
+  match depth_at m 9, depth_at m 8 with
+  | None, Some ds => Datatypes.inr (LST29, (2 * d) mod 256, ds)
+  | Some dt, None => Datatypes.inr (LST29, (2 * dt) mod 256, d)
+  | Some dt, Some ds => Datatypes.inr (LST29, (2 * dt) mod 256, ds)
+  | None, None => Datatypes.inl FMissingKeyword
+  end.
+Definition dispatch_v1 (m : kwmap) : sum ferr (leaf * N * N)%type :=
+  match depth_at m 10 with
+  | None => Datatypes.inl FMissingKeyword
+  | Some d =>
+    match by_ordering m (Datatypes.inr LSNuniq) (Datatypes.inr LSRange) (Datatypes.inr LST29) with
+    | Datatypes.inl e => Datatypes.inl e
+    | Datatypes.inr LST29 => st29_depths m d
+    | Datatypes.inr lf => Datatypes.inr (lf, d, 0)
+    end
+  end.
+
+Definition is_v2 (m : kwmap) : bool :=
+  match kw_get m 0 with Some (KEnum 1) => true | _ => false end.
+Definition dispatch (m : kwmap) : sum ferr (leaf * N * N)%type :=
+  if is_v2 m then dispatch_v2 m else dispatch_v1 m.
 
 (** the TFORM1 x NAXIS1 test of the loaders: the index width *)
 Definition width_of (lf : leaf) (m : kwmap) (nbytes : N) : sum ferr N :=
